@@ -132,6 +132,10 @@ def digest_cmds(slot, src, probes, evals=True):
         return ["dump %s meta" % slot, "xdump %s parked" % slot]
     if evals:
         cmds = ["dump %s meta points needed pidx nidx values" % slot, "dump %s coef" % slot, "dump %s qw" % slot, "xdump %s parked" % slot]
+    elif src["kind"] == "construct-empty":
+        # construction started from an empty grid and nothing loaded yet: the grid has no points at all, the weight / basis queries are not
+        # defined on it (getQuadratureWeights dereferences the empty sets): only the sets and the construction data are observed
+        return ["dump %s meta needed pidx nidx" % slot, "xdump %s parked" % slot]
     else:   # no loaded values (or no outputs): getLoadedPoints / getLoadedValues are not meaningful
         cmds = ["dump %s meta allpoints needed pidx nidx" % slot, "dump %s qw" % slot, "xdump %s parked" % slot]
     if spec["family"] in ("localp", "wavelet"):
